@@ -1,5 +1,6 @@
 import ScrapliModel.Bytes
 import ScrapliModel.Generated.Consts
+import ScrapliModel.Generated.C13OptionLoops
 /-!
 # Failed: failure marking, aggregation and stop-on-failed (model for C13)
 
@@ -118,6 +119,42 @@ def newOperation (opFwc : Option (List Bytes)) (withStop : Bool) : Op :=
     | some l => { o with fwc := l }
     | none => o
   if withStop then { o with stop := true } else o
+
+/-- one entry of the variadic operation-option list of a send call, as `generic.NewOperation`
+sees it -/
+inductive OpOpt where
+  | fwc (l : List Bytes)  -- `opoptions.WithFailedWhenContains(l)`
+  | stop                  -- `opoptions.WithStopOnFailed()`
+  | foreign               -- an operation option of another layer (channel: `WithNoStripPrompt`,
+                          -- `WithTimeoutOps`, …; network: `WithPrivilegeLevel`; netconf: `WithFilterType`, …):
+                          -- answers `util.ErrIgnoredOption` on `*generic.OperationOptions`
+  | bad                   -- an option that returns a real error
+deriving DecidableEq, Repr
+
+/-- applying one option to `*generic.OperationOptions` -/
+def applyOpOpt : OpOpt → Op → OptLoop.Outcome Op
+  | .fwc l, o => .ok { o with fwc := l }
+  | .stop, o => .ok { o with stop := true }
+  | .foreign, _ => .ignored
+  | .bad, _ => .err
+
+/-- `generic.NewOperation(opts...)` on the whole option list, with the loop as the source reads now
+(`Gen.C13OptionLoops.generic`); `none` = an error is returned -/
+def newOperationL (opts : List OpOpt) : Option Op :=
+  OptLoop.run Gen.C13OptionLoops.generic applyOpOpt opts
+    { fwc := [], stop := Gen.Generic.defaultStopOnFailed }
+
+/-- what the caller asked for: the list of the last `WithFailedWhenContains` in the call, if any -/
+def lastFwc : List OpOpt → Option (List Bytes)
+  | [] => none
+  | .fwc l :: xs => (match lastFwc xs with | some l' => some l' | none => some l)
+  | _ :: xs => lastFwc xs
+
+/-- what the caller asked for: is there a `WithStopOnFailed` in the call -/
+def hasStop : List OpOpt → Bool
+  | [] => false
+  | .stop :: _ => true
+  | _ :: xs => hasStop xs
 
 /-- the failure strings in force: the operation's list when non-empty, otherwise the driver's -/
 def effective (opStrs drvStrs : List Bytes) : List Bytes :=
